@@ -489,6 +489,68 @@ def run(ctx):
                                'contents when keep_braced_groups applies (minlen 0 keeps every group), which raises '
                                'TypeError for None' % short(d_, 30), construct='%s: group delimiters %s' % (mod_.relpath, short(d_, 30)))
 
+    # ---- R07n: formatting a table pattern cannot raise out of the converter
+    ctx.rule('R07n', 'a `%` substitution into a replacement pattern that is not a literal (simplify_repl from a table) is '
+                     'inside a try whose handlers cover TypeError, ValueError and KeyError: a pattern with more or fewer '
+                     'placeholders than the macro has arguments (\\textfrac) raises TypeError', 1)
+    n_fmt = 0
+    for mod_ in sorted(repo.modules.values(), key=lambda m_: m_.name):
+        if not mod_.name.startswith('pylatexenc.latex2text') or mod_.name.endswith('__main__'):
+            continue
+        for x_ in ast.walk(mod_.tree):
+            if not (isinstance(x_, ast.BinOp) and isinstance(x_.op, ast.Mod) and not isinstance(x_.left, (ast.Constant, ast.JoinedStr))):
+                continue
+            n_fmt += 1
+            caught = set()
+            for p_ in parents(x_):
+                if isinstance(p_, ast.Try) and any(x_ is y_ for st_ in p_.body for y_ in ast.walk(st_)):
+                    for h_ in p_.handlers:
+                        if h_.type is None:
+                            caught |= {'TypeError', 'ValueError', 'KeyError'}
+                        else:
+                            caught |= {n_.id for n_ in ast.walk(h_.type) if isinstance(n_, ast.Name)}
+            if caught & {'Exception', 'BaseException'}:
+                caught |= {'TypeError', 'ValueError', 'KeyError'}
+            miss = sorted({'TypeError', 'ValueError', 'KeyError'} - caught)
+            ctx.decide('R07n', not miss, mod_, x_, '%s under handlers for %s' % (short(x_, 40), sorted(caught)),
+                       '%s can raise %s, which no enclosing handler catches: a replacement pattern whose placeholders do not '
+                       'match the arguments of the macro (the default \\textfrac: two %%s, arguments as parsed) makes '
+                       'latex_to_text raise instead of returning text' % (short(x_, 40), miss),
+                       construct='pattern substitution ' + short(x_, 40))
+    if not n_fmt:
+        ctx.unknown('R07n', m, None, 'no pattern substitution found', construct='pattern substitution')
+
+    # ---- R07o: a macro read as a single-token argument has an arguments object
+    ctx.rule('R07o', 'the parsers that read a macro / environment / specials call (what spec.get_node_parser() returns) keep '
+                     'the inherited contents_can_be_empty() == True: only then is the `return None` of '
+                     'LatexExpressionParser._check_if_requires_args dead and nodeargd of a macro taken as a single-token argument '
+                     '(\\hat\\title) is an arguments object, which the replacement callables of latex2text read without a None test', 3)
+    n_cp = 0
+    for cn_ in sorted({c_.name for mod_ in repo.modules.values() for c_ in mod_.classes.values()
+                       if repo.is_subclass(c_.name, '_LatexCallableParserBase') or c_.name == '_LatexCallableParserBase'}):
+        n_cp += 1
+        bad_ = None
+        for b_ in repo.mro_names(cn_):
+            c_ = repo.find_class(b_)
+            if c_ is None:
+                continue
+            fn_ = [f_ for f_ in c_.body if isinstance(f_, ast.FunctionDef) and f_.name == 'contents_can_be_empty']
+            if fn_:
+                body_ = [s_ for s_ in fn_[0].body if not (isinstance(s_, ast.Expr) and isinstance(s_.value, ast.Constant))]
+                const_true = len(body_) == 1 and isinstance(body_[0], ast.Return) and isinstance(body_[0].value, ast.Constant) \
+                    and body_[0].value.value is True
+                if not const_true:
+                    bad_ = (b_, fn_[0])
+                break
+        cm_ = repo.find_class(cn_)
+        ctx.decide('R07o', bad_ is None, m, bad_[1] if bad_ else cm_, '%s: contents_can_be_empty() is the constant True' % cn_,
+                   '%s answers contents_can_be_empty() through %s.contents_can_be_empty, which is not `return True`: in tolerant '
+                   'mode a macro with mandatory arguments read as a single-token argument then gets nodeargd=None, and the '
+                   'replacement callables of the default text database (\\title, \\author, \\texorpdfstring) raise '
+                   'AttributeError / TypeError' % (cn_, bad_[0] if bad_ else ''), construct='%s.contents_can_be_empty' % cn_)
+    if n_cp < 3:
+        raise AnalysisError('R07o: only %d call-parser classes found' % n_cp)
+
     return 'other', (
         'Exception-escape analysis of latex_to_text (tolerant configuration), crash-construct rules '
         'G1-G9 on every function reachable from it (including the default replacement callables), a '
